@@ -191,12 +191,13 @@ CHECKS = {
    level=("proof", "Coq theorems (axiom-free) on a model of module_loader.cpp over an abstract file system, for every tree, search-path list, "
           "working directory and entry: a successful load lists each module once, places every imported module (symbol or wildcard, importer "
           "excepted) before its importer, has checked that each declares the imported package, contains the entry and exactly one main; symbol "
-          "resolution returns the first root in the documented order (search paths first for bloch.*) that has the file; the traversal "
+          "resolution returns the first root in the documented order (search paths first for bloch.*) that has the file, a wildcard import the whole "
+          "package directory of the first root that holds a module; the traversal "
           "terminates on every import graph (cyclic or not). Tied by random and hand-written trees written to disk and loaded through the public "
           "ModuleLoader, comparing merged order or diagnostic class/category with the extracted model. 'Import cycle' is never a false alarm (it is "
           "answered only when some module reaches itself through imports as they resolve on that file system), and a load that succeeded has no "
           "cycle through any module it loaded.", "DESIGN.md §6 C19"),
-   note="Trusted: Coq kernel; extraction; glue. std::filesystem canonicalisation, symlinks, '..' not modelled (generated trees are canonical).",
+   note="Trusted: Coq kernel; extraction; glue. std::filesystem canonicalisation, symlinks, '..' not modelled (generated trees are canonical; dangling symlinks and other non-module entries are added to a third of them and must be ignored). The implementation refuses import chains deeper than 1000 modules; the model has no bound.",
    technique="Coq proof (DFS invariant with fuel, parameterised recursion) + extraction-based correspondence on real directory trees"),
  "C20": dict(
    level=("proof", "13 Coq theorems (axiom-free) over a model of parseSemVer/compareSemVer/hasLatest/the --update decision/parseChecksum/"
